@@ -11,7 +11,10 @@
    with a sweep over every even length up to 2*255 and seeded random arrays:
    pass 1 - xs embedded in a larger backing array with an adversarial tail;
    pass 2 - separate process: xs ends at a PROT_NONE guard page (faults are events; a process crash is
-            attributed to the last flushed CaseBegin and the pass is resumed behind it).
+            attributed to the last flushed CaseBegin and the pass is resumed behind it);
+   pass 3 - 12 goroutines search private arrays (len = 2,4,6 mod 8, answer behind the multiple-of-8
+            prefix or none) at the same time, every call logged and judged like a sequential one; in the
+            thorough tier also under `go test -race` (a race report in Search becomes a Race event).
 3. TLC validates the recorded traces against spec/z/TraceSearch.tla.  Rejections whose reason matches
    an OPEN entry of known_findings.json are printed as KNOWN-FINDING, all others are VIOLATIONs.
 """
@@ -107,9 +110,16 @@ def run(ctx, pid):
 
     trace2, summ2 = guard_pass(ctx, inp)
 
+    # concurrent callers on private arrays; in the thorough tier once more under the race detector
+    conc = [conc_pass(ctx, inp, calls=ctx.pick(2500, 20000), race=False)]
+    if not quick:
+        conc.append(conc_pass(ctx, inp, calls=3000, race=True))
+    summ3 = {"traces": sum(s["traces"] for _, s in conc), "calls": sum(s["calls"] for _, s in conc),
+             "goroutines": conc[0][1]["goroutines"], "race_reports": sum(s["race_reports"] for _, s in conc)}
+
     trace = os.path.join(ctx.scratch, "search_all.ndjson")
     with open(trace, "w") as f:
-        for t in (trace1, trace2):
+        for t in [trace1, trace2] + [t for t, _ in conc]:
             with open(t) as g:
                 shutil.copyfileobj(g, f)
 
@@ -131,7 +141,11 @@ def run(ctx, pid):
         "states": mc.distinct,
         "transitions": mc.generated,
         "cases_enumerated_by_tlc": len(cases),
-        "traces_validated_against_impl": summ1["traces"] + summ2["traces"],
+        "traces_validated_against_impl": summ1["traces"] + summ2["traces"] + summ3["traces"],
+        "search_calls_concurrent": summ3["calls"],
+        "concurrent_goroutines": summ3["goroutines"],
+        "race_detector_pass": not quick,
+        "race_reports": summ3["race_reports"],
         "events_validated": nev,
         "search_calls_embed": summ1["calls"],
         "search_calls_guard": summ2["calls"],
@@ -152,6 +166,8 @@ def run(ctx, pid):
         "the model explores lengths up to 2*%d; longer lengths (to 510 and random up to 2400) only on the real code" % F,
         "memory beyond the slice is varied over 16 words (embed pass) or made inaccessible (guard pass); "
         "'every content' of it is represented by comparison classes of the words the kernel can reach",
+        "concurrent pass: interference between callers is only seen if it happens in these runs (12 goroutines, "
+        "2500 / 20000 calls each); the race detector (thorough tier) does not instrument the assembly kernel itself",
         "amd64 only: on other architectures Search is the portable Go version"])
 
 
@@ -207,6 +223,32 @@ def guard_pass(ctx, inp):
         f.write("".join(parts))
     tot["crashes"] = crashes
     return trace, tot
+
+
+def conc_pass(ctx, inp, calls, race):
+    """TestVerifSearchConcurrent; with race=True under `go test -race`: a report whose stack is in
+    simd.Search becomes a Race event (judged by the trace spec)."""
+    rc, out, d = vlib.go_test(ctx, "./z/simd", OVERLAYS, "^TestVerifSearchConcurrent$",
+                              env={"VERIF_INPUT": inp, "VERIF_CONC_CALLS": calls, "VERIF_CONC_G": 12},
+                              race=race, timeout=1200, name="conc-race" if race else "conc")
+    tp = os.path.join(d, "search_conc.ndjson")
+    sp = os.path.join(d, "search_conc.summary.json")
+    raced = "WARNING: DATA RACE" in out
+    if not os.path.exists(sp) or (rc != 0 and not raced):
+        raise Inconclusive("concurrent driver failed (rc=%s):\n%s" % (rc, out[-2000:]))
+    summ = json.load(open(sp))
+    summ["race_reports"] = 0
+    if raced:
+        reports = out.split("WARNING: DATA RACE")[1:]
+        mine = [r for r in reports if "simd.Search" in r.split("==================")[0]]
+        if not mine:
+            raise Inconclusive("data race outside simd.Search (harness?):\n%s" % out[-2500:])
+        summ["race_reports"] = len(mine)
+        detail = " | ".join(l.strip() for l in mine[0].split("\n")[:12] if l.strip())[:600]
+        with open(tp, "a") as f:
+            f.write(json.dumps({"ev": "Race", "fn": "Search", "reports": len(mine), "detail": detail},
+                               separators=(",", ":")) + "\n")
+    return tp, summ
 
 
 def replay(ctx, pid, path, fix):
